@@ -7,13 +7,15 @@
    existing feature, name one of x y z.
    C02_surface / C02_surface_operate: the surface spellings - unary minus "(-e)" and the function calls F(e), F{e} - are rewritten
    by the string passes of __evaluate into (0-e) and F@(e); a surface expression evaluates as its lowered tree.
-   Named _partial where the property text asks for more than is proved here: a surface spelling on the right of '=' (the '='
-   theorems take the internal spelling), a leading unary minus without parentheses, the operator spellings ** .* >> <<, and
-   "t=expr" (raw values stored as timestamps) are tied to the code by the correspondence streams and the tree-evaluator oracle only. *)
+   C02_surface_assign: the same on the right of '=' ("name=<surface expression>" evaluates as "name=<lowered expression>", to which
+   the three '=' theorems apply).
+   Named _partial where the property text asks for more than is proved here: a leading unary minus without parentheses, the
+   operator spellings ** .* >> <<, and "t=expr" (raw values stored as timestamps) are tied to the code by the correspondence
+   streams and the tree-evaluator oracle only. *)
 From Coq Require Import List Ascii String Bool Arith ZArith QArith Lia.
 Import ListNotations.
 From TL Require Import Model.Str Model.Rpn Model.Table Model.Eval Model.Pipeline
-  Proofs.Table_inv Proofs.Table_remove Proofs.Rpn_parse Proofs.Rpn_output Proofs.Eval_sem Proofs.Eval_machine Proofs.Eval_run Proofs.Eval_top Proofs.Eval_operate Proofs.Eval_assign Proofs.Replace Proofs.Surface Proofs.Surface_eval.
+  Proofs.Table_inv Proofs.Table_remove Proofs.Rpn_parse Proofs.Rpn_output Proofs.Eval_sem Proofs.Eval_machine Proofs.Eval_run Proofs.Eval_top Proofs.Eval_operate Proofs.Eval_assign Proofs.Replace Proofs.Surface Proofs.Surface_eval Proofs.Surface_assign.
 
 (* the parser: precedence classes, left associativity, parentheses - for every expression tree *)
 Theorem C02_parse : forall fuel e, wf e -> (size e < fuel)%nat -> makeRPN fuel (print e) = Rpn.Ok (postfix e).
@@ -105,6 +107,11 @@ Theorem C02_surface_operate x t d :
     /\ xs t3 = xs t /\ ys t3 = ys t /\ zs t3 = zs t /\ ts t3 = ts t.
 Proof. exact (surface_operate_correct x t d). Qed.
 
+(* ... and on the right of '=': "name=<surface expression>" evaluates exactly as "name=<lowered expression>" *)
+Theorem C02_surface_assign lhs x t : lhs_ok lhs -> swf x -> clean (print (lower x)) = true ->
+  operate_str t (lhs ++ "="%char :: sprint x) = operate_str t (assign_str lhs (lower x)).
+Proof. exact (surface_assign_operate lhs x t). Qed.
+
 (* spaces anywhere in the input are irrelevant *)
 Theorem C02_spaces e t d s :
   filter (fun c => negb (Ascii.eqb c " ")) s = print e ->
@@ -126,6 +133,7 @@ Print Assumptions C02_assign_over.
 Print Assumptions C02_assign_coord.
 Print Assumptions C02_surface.
 Print Assumptions C02_surface_operate.
+Print Assumptions C02_surface_assign.
 
 (* non-vacuity: every hypothesis of C02_operate_partial holds for a + 2 * (x - a) on a two-fix track, and for a+D@(x)+SUM@(a) *)
 Example C02_nonvacuous :
